@@ -25,8 +25,9 @@ def main():
     if a.replay:
         doc = json.load(open(a.replay))
         v = {'kind': doc['kind'], 'case': doc['case']}
-        r1 = core._replay_once(module, v)
-        r2 = core._replay_once(module, v)
+        times = int(doc.get('replay_times', 1))
+        r1 = core._replay_once(module, v, times)
+        r2 = core._replay_once(module, v, times)
         print(json.dumps(r1, indent=1, sort_keys=True, default=repr))
         if core.canon(r1) != core.canon(r2):
             print('replay diverged between two fresh workers')
